@@ -11,6 +11,7 @@ import numpy as np
 
 from mc import xtal
 from mc.ref import lattice, mol, symm
+from mc.ref.mol import rot
 
 PROPERTY = "C04"
 LEVEL = "exploration"
@@ -24,6 +25,29 @@ def make_directed(row, case):
     """
     ops = [symm.decode(c) for c in row["symops"]]
     d = case["directed"]
+    if d.get("bigcell"):
+        # a cell of realistic size: n^3 water molecules on a grid of 3.6 A spacing (648 .. 2187 atoms in P1, twice that in P-1), every
+        # molecule in one generic orientation, the grid offset so that the molecules of the first layers straddle the cell faces
+        n, sp, off = d["n"], d.get("spacing", 3.6), d.get("offset", 0.1)
+        cell = (sp * n, sp * n, sp * n, 90.0, 90.0, 90.0)
+        M = lattice.cell_matrix(*cell)
+        Mi = np.linalg.inv(M)
+        syms_w, xyz_w, bnd_w = mol.TEMPLATES["H2O"]
+        xyz_w = np.asarray(xyz_w) @ rot((1, 2, 3), 0.7).T
+        symbols, frac, molidx, bonds = [], [], [], []
+        for mi_, (i, j, k) in enumerate(itertools.product(range(n), repeat=3)):
+            c = (np.array([i, j, k], dtype=float) + off) / n
+            o = len(symbols)
+            symbols += list(syms_w)
+            frac += [tuple(p) for p in (c @ M + xyz_w) @ Mi]
+            molidx += [mi_] * len(syms_w)
+            bonds += [(o + a, o + b) for a, b in bnd_w]
+        if d.get("listing") == "heavy-first":
+            order = sorted(range(len(symbols)), key=lambda q: (symbols[q] == "H", q))
+            inv = {old_: new_ for new_, old_ in enumerate(order)}
+            symbols, frac, molidx, bonds = [symbols[q] for q in order], [frac[q] for q in order], [molidx[q] for q in order], [(inv[a], inv[b]) for a, b in bonds]
+        asym = {"symbols": symbols, "frac": np.array(frac), "molidx": molidx, "bonds": bonds, "cell": cell, "M": M}
+        return ops, cell, asym, mol.images(ops, asym)
     if d.get("rod"):
         # a polyyne rod H-(C)n-H lying in the ab plane at 45 degrees to a SHORT a axis: it spans several cells along a while
         # staying 3.5 A away from its own a-translates; listed from either end, starting in / above / below the reference cell
@@ -173,8 +197,9 @@ def check_case(part, row, case):
         cover = np.concatenate([np.asarray(u.properties["asymmetric_unit_atoms"]) for u in uniq])
         if sorted(cover.tolist()) != list(range(len(asym["symbols"]))):
             part.fail("unique-cover:%s" % key_suffix, "symmetry-unique molecules do not cover every asymmetric-unit atom exactly once in %s" % sk, case)
-        if len(uniq) != (1 if zk == "directed" else len(mol.ZPRIME[zk])):
-            part.fail("unique-count:%s" % key_suffix, "%d symmetry-unique molecules, expected %d in %s" % (len(uniq), 1 if zk == "directed" else len(mol.ZPRIME[zk]), sk), case)
+        want_unique = len(set(asym["molidx"])) if zk == "directed" else len(mol.ZPRIME[zk])
+        if len(uniq) != want_unique:
+            part.fail("unique-count:%s" % key_suffix, "%d symmetry-unique molecules, expected %d in %s" % (len(uniq), want_unique, sk), case)
         for m in c.unit_cell_molecules():
             k = m.properties.get("asym_mol_idx")
             if k is None or not (0 <= k < len(uniq)):
@@ -282,6 +307,13 @@ def plan(row, tier, seed, full):
                 for listing in (None, "reversed", "even-odd", "scrambled"):
                     cases.append({"number": row["number"], "choice": row["choice"], "zkind": "directed", "centre": [0, 0, 0], "orient": 0, "seed": seed,
                                   "directed": {"rod": True, "ncarbon": nc, "start": start, "listing": listing}})
+    # realistic sizes: 648 .. 3072 atoms in the cell (water grids in P1 / P-1), listed molecule by molecule and heavy atoms first
+    if row["number"] <= 2 and row["index_in_number"] == 0:
+        for n in ((6, 7, 8, 9) if row["number"] == 1 else (5, 6, 7, 8)) if full else ((6, 7, 8) if row["number"] == 1 else (5, 7)):
+            for off in ((0.1, 0.9) if row["number"] == 1 else (0.25,)):     # P-1: the inverted grid then sits body-centred between the listed one
+                for listing in ((None, "heavy-first") if off != 0.9 else (None,)):
+                    cases.append({"number": row["number"], "choice": row["choice"], "zkind": "directed", "centre": [0, 0, 0], "orient": 0, "seed": seed,
+                                  "directed": {"bigcell": True, "n": n, "offset": off, "listing": listing}})
     return cases
 
 
